@@ -5,7 +5,8 @@
         model column: `ok <status>;… <msghex> <machex|->` (statuses of every call, the finished
         message, the MAC handed to the model for signed TSIG modes); spec column `-` (the
         specification is evaluated by `waudit` on the implementation's own octets)
-    waudit <buflen> <limit> <mode> <fill> <ops> <statuses> <msghex> <machex|->
+    paudit …  same arguments as `waudit`; only the pointer audit of C13 is evaluated
+    waudit <buflen> <limit> <mode> <fill> <ops> <statuses> <msghex[|msghex…]> <machex|->
         spec column : `ok` iff the given (implementation's) statuses and octets satisfy the
                       specification `QV.Spec.Message.checkSession` (independent decoder, abstract
                       message of the successful calls, size limit, no spurious truncation,
@@ -17,6 +18,7 @@
 import QV.Driver.Util
 import QV.Model.Writer
 import QV.Spec.Message
+import QV.Proofs.WriterBridge
 
 namespace QV.Driver
 open QV QV.Writer
@@ -162,51 +164,6 @@ def parseOps (fill : UInt8) (s : String) : Option (List Op × Option (List UInt8
       | none => none
   go parts []
 
-def b01 (b : Bool) : String := if b then "1" else "0"
-
-def gettersStr (s : State) : String :=
-  s!"g={getId s}.{b01 (getBit s Gen.QR_BYTE Gen.QR_MASK)}{b01 (getBit s Gen.AA_BYTE Gen.AA_MASK)}" ++
-  s!"{b01 (getBit s Gen.TC_BYTE Gen.TC_MASK)}{b01 (getBit s Gen.RD_BYTE Gen.RD_MASK)}" ++
-  s!"{b01 (getBit s Gen.RA_BYTE Gen.RA_MASK)}.{getOpcode s}.{getRcode s}.{getExtendedRcode s}." ++
-  s!"{s.qdcount}.{s.ancount}.{s.nscount}.{s.arcount}"
-
-def statusStr : Out WriterErr Unit → String
-  | .ok _ => "ok"
-  | .err e => "err:" ++ e.toString
-  | .panic => "panic"
-
-/-- outcome of running a session through the model -/
-structure ModelRun where
-  statuses : List String
-  msg : Option Bytes          -- `none` after a panic
-  mac : Option (List UInt8)
-  /-- finished messages of the prefixes that end before each `clear_rrs` -/
-  pre : List Bytes := []
-
-/-- run the ops one call at a time (the driver needs the intermediate state for `g`) -/
-def runModel (ss : Session) (ops : List Op) (mac : Option (List UInt8)) (fin : Bool) : ModelRun :=
-  let macFn : Tsig → List UInt8 → List UInt8 := fun _ _ => mac.getD []
-  let rec go (ss : Session) : List Op → List String → List Bytes → ModelRun
-    | [], acc, pre =>
-      if fin then
-        match finish ss.w macFn with
-        | .ok (m, mc) => ⟨(("ok" :: acc).reverse), some m, mc, pre.reverse⟩
-        | _ => ⟨(("panic" :: acc).reverse), none, none, pre.reverse⟩
-      else ⟨acc.reverse, none, none, pre.reverse⟩
-    | op :: rest, acc, pre =>
-      match op with
-      | .getters => go ss rest (gettersStr ss.w :: acc) pre
-      | _ =>
-        let pre' := match op with
-          | .clearRrs => (match finish ss.w macFn with
-                          | .ok (m, _) => m :: pre
-                          | _ => #[] :: pre)
-          | _ => pre
-        match step ss op with
-        | (.panic, _) => ⟨(("panic" :: acc).reverse), none, none, pre'.reverse⟩
-        | (r, ss') => go ss' rest (statusStr r :: acc) pre'
-  go ss ops [] []
-
 def ModelRun.show (r : ModelRun) : String :=
   let st := ";".intercalate r.statuses
   match r.msg with
@@ -229,49 +186,20 @@ def sessionOf (buflen limit mode fill ops : String) :
   | .err e => some (bl, li, md, opl, some (.err e))
   | .panic => some (bl, li, md, opl, some .panic)
 
-/-! ### conversion of model-level ops to the specification's vocabulary -/
-
-def toSpecMode : CMode → Spec.Message.Mode
-  | .standard => .standard
-  | .casePreserving => .casePreserving
-  | .disabled => .disabled
-
-def secNum : RrSection → Nat
-  | .answer => 1
-  | .authority => 2
-  | .additional => 3
-
-def algNum : Alg → Nat
-  | .hmacSha1 => 1
-  | .hmacSha256 => 256
-
-def toSpecOp : Op → Spec.Message.SOp
-  | .setId v => .setId v
-  | .setQr b => .setFlag .qr b
-  | .setAa b => .setFlag .aa b
-  | .setTc b => .setFlag .tc b
-  | .setRd b => .setFlag .rd b
-  | .setRa b => .setFlag .ra b
-  | .setOpcode v => .setOpcode v
-  | .setRcode v => .setRcode v
-  | .setExtendedRcode v => .setExtRcode v
-  | .setLimit v => .setLimit v
-  | .setMode m => .setMode (toSpecMode m)
-  | .addQuestion n t c => .addQuestion n.wire t c
-  | .addRr sec _ o ty cls ttl rd _ => .addRrs (secNum sec) o.wire ty cls ttl [rd]
-  | .addRrset sec _ o ty cls ttl rds _ => .addRrs (secNum sec) o.wire ty cls ttl rds
-  | .clearRrs => .clearRrs
-  | .setEdns p => .setEdns p
-  | .setTsig m rr =>
-    let (sg, alg) : Option Nat × Spec.Message.Name := match m with
-      | .request a _ | .response a _ _ | .subsequent a _ _ =>
-        (some (Spec.Message.algOutputSize (algNum a)), Spec.Message.algWireName (algNum a))
-      | .unsigned n => (none, n.wire)
-    .setTsig sg alg rr.keyName.wire rr.timeSigned rr.fudge rr.originalId rr.error rr.serverTime
-  | .updateTimeSigned t => .updateTime t
-  | .template n _ => .template n
-  | .templateSubsequent n _ _ => .templateSubsequent n
-  | .getters => .getters
+/-- `waudit` (the whole of C12 + C13) / `paudit` (the pointer audit of C13 only) -/
+def audit (ptrOnly : Bool) (buflen limit mode fill ops st msgs mac : String) : Option (String × String) :=
+  match sessionOf buflen limit mode fill ops, (msgs.splitOn "|").mapM unhexFast,
+        (if mac = "-" then some none else (bytesArg mac).map some) with
+  | some (bl, li, md, opl, some (.ok r)), some implMsgs, some macv =>
+    let sops := opl.map toSpecOp
+    let specCol := Spec.Message.checkSession bl li (toSpecMode md) sops (st.splitOn ";") implMsgs macv ptrOnly
+    -- the same check on the model's own output
+    let modelCol := match r.msg with
+      | some m =>
+        Spec.Message.checkSession bl li (toSpecMode md) sops r.statuses (r.pre ++ [m]) r.mac ptrOnly
+      | none => "viol:model-panic"
+    some (modelCol, specCol)
+  | _, _, _ => some bad
 
 def writerHandler : Handler := fun op args =>
   match op, args with
@@ -281,19 +209,8 @@ def writerHandler : Handler := fun op args =>
     | some (_, _, _, _, some (.err e)) => some ("err:" ++ e.toString, "-")
     | some (_, _, _, _, some .panic) => some ("panic", "-")
     | _ => some bad
-  | "waudit", [buflen, limit, mode, fill, ops, st, msgs, mac] =>
-    match sessionOf buflen limit mode fill ops, (msgs.splitOn "|").mapM unhexFast,
-          (if mac = "-" then some none else (bytesArg mac).map some) with
-    | some (bl, li, md, opl, some (.ok r)), some implMsgs, some macv =>
-      let sops := opl.map toSpecOp
-      let specCol := Spec.Message.checkSession bl li (toSpecMode md) sops (st.splitOn ";") implMsgs macv
-      -- the model's own output (prefix messages before each clear_rrs are the model's too)
-      let modelCol := match r.msg with
-        | some m =>
-          Spec.Message.checkSession bl li (toSpecMode md) sops r.statuses (r.pre ++ [m]) r.mac
-        | none => "viol:model-panic"
-      some (modelCol, specCol)
-    | _, _, _ => some bad
+  | "waudit", [buflen, limit, mode, fill, ops, st, msgs, mac] => audit false buflen limit mode fill ops st msgs mac
+  | "paudit", [buflen, limit, mode, fill, ops, st, msgs, mac] => audit true buflen limit mode fill ops st msgs mac
   | _, _ => none
 
 end QV.Driver
